@@ -6,6 +6,7 @@ import (
 	"errors"
 	"fmt"
 	"io"
+	"os"
 	"runtime"
 	"sort"
 	"strings"
@@ -14,6 +15,7 @@ import (
 
 	netty "github.com/go-netty/go-netty"
 	"github.com/go-netty/go-netty/utils/pool/pbytes"
+	"pgregory.net/rapid"
 
 	"verif/harness/core"
 	"verif/harness/mock"
@@ -64,6 +66,8 @@ type E1Case struct {
 	Excluded int          `json:"excluded,omitempty"` // generator: items replaced because they belong to a listed finding
 	HTTP     *C06HTTP     `json:"http,omitempty"`     // C06: the HTTP codec's "Connection: close" path
 	Stress   int          `json:"stress,omitempty"`   // C02: > 0 = rounds of a real-goroutine stress (no scheduler)
+	Swallow  bool         `json:"swallow,omitempty"`  // the pipeline's exception handler logs and does not forward (the tail handler never sees an exception)
+	WrapRead bool         `json:"wrapread,omitempty"` // the decoding handler wraps a transport read error with %w before raising it (as utils.Assert does)
 }
 
 type e1Call struct {
@@ -124,7 +128,10 @@ type e1Run struct {
 	lockContended      bool
 	incon              string
 	closeCalls         []*e1Call
-	bound              int // max over steps of (successful returned calls - packets written)
+	bound              int // max over steps of (successful calls whose payload the transport has not taken yet)
+	wantBound          bool
+	pollsWithSender    int // futile Close polls taken while a sender action existed
+	pollsNoSender      int // futile Close polls taken while none existed
 	noDrain            bool
 	inbound            int
 	closeOverlapSender bool
@@ -147,6 +154,26 @@ type e1Run struct {
 const afterClosed = -10
 
 // closeReturned: inactive was delivered (the last step of Close) and no task is inside Close any more.
+// virtSlept reports how long Close's poll loop has "slept" in the no-sleep stage (0 otherwise); see vclock_nosleep_test.go.
+var (
+	virtSlept      = func() time.Duration { return 0 }
+	virtSleptReset = func() {}
+)
+
+// graceExhausted: a bounded-wait Close waited out its whole grace period (ten polls of 100 ms on this tree)
+// because the schedule kept the sender stalled; C06 exempts that case.
+func graceExhausted() bool { return virtSlept() >= time.Second-time.Millisecond }
+
+// drawFutile draws the number of futile Close polls a schedule may take. Each costs a real 100 ms unless the
+// no-sleep stage is running (VERIF_NOSLEEP=1, clock-redirected build), where the whole grace period of a
+// bounded-wait channel (10 polls) and more can be explored.
+func drawFutile(t *rapid.T, base []int) int {
+	if os.Getenv("VERIF_NOSLEEP") == "1" {
+		return rapid.SampledFrom([]int{0, 0, 1, 2, 3, 5, 9, 10, 11, 12}).Draw(t, "futile")
+	}
+	return rapid.SampledFrom(base).Draw(t, "futile")
+}
+
 func (r *e1Run) closeReturned() bool {
 	if len(r.inactive) == 0 {
 		return false
@@ -181,9 +208,20 @@ func closeErrOf(kind string, id int) error {
 		return io.EOF
 	case "neterr":
 		return &mock.NetErr{Msg: fmt.Sprintf("verif: close net error #%d", id)}
+	case "wrapped-neterr":
+		return fmt.Errorf("verif: upstream #%d: %w", id, &mock.NetErr{Msg: "verif: wrapped close net error"})
+	case "timeout":
+		return &mock.NetErr{Msg: fmt.Sprintf("verif: close timeout #%d", id), TO: true}
+	case "deadline":
+		return context.DeadlineExceeded
+	case "os-deadline":
+		return fmt.Errorf("verif: write #%d: %w", id, os.ErrDeadlineExceeded)
 	}
 	return fmt.Errorf("verif: close error #%d", id)
 }
+
+// closeErrKinds: every kind of value a caller may hand to Close ("whatever error value - including nil - Close was given").
+var closeErrKinds = []string{"nil", "nil", "sentinel", "wrapped", "eof", "neterr", "wrapped-neterr", "timeout", "deadline", "os-deadline"}
 
 func (r *e1Run) senders() []*sched.Task {
 	var out []*sched.Task
@@ -286,6 +324,19 @@ func (r *e1Run) hook(ch netty.Channel, where string) {
 		if st, _ := netty.VerifState(ch); st.Running || st.QueueLen > 0 {
 			r.futile--
 			r.cls.Add("futile-close-poll")
+			live := false
+			for _, st := range r.senders() {
+				if !st.Done() {
+					live = true
+				}
+			}
+			r.mu.Lock()
+			if live {
+				r.pollsWithSender++
+			} else {
+				r.pollsNoSender++ // Close is waiting although nobody is sending: whatever is queued is stranded
+			}
+			r.mu.Unlock()
 		}
 	}
 }
@@ -535,6 +586,7 @@ func e1Message(carrier string, p []byte, seed int) (interface{}, bool) {
 }
 
 func newE1(c E1Case, handlers ...netty.Handler) *e1Run {
+	virtSleptReset()
 	r := &e1Run{c: c, byID: map[int]*e1Call{}, hooks: map[string]int{}, futile: c.Futile, cls: core.NewClassSet()}
 	r.s = sched.New(c.Schedule)
 	r.tr = mock.NewTransport(r.s, c.Buffered, c.Faults)
@@ -576,7 +628,9 @@ func newE1(c E1Case, handlers ...netty.Handler) *e1Run {
 		ctx.HandleInactive(ex)
 	}), netty.ExceptionHandlerFunc(func(ctx netty.ExceptionContext, ex netty.Exception) {
 		r.exceptions = append(r.exceptions, ex)
-		ctx.HandleException(ex)
+		if !c.Swallow {
+			ctx.HandleException(ex)
+		}
 	}))
 	if !r.noDrain {
 		// the inbound end of every pipeline: reads the transport like a codec does
@@ -587,6 +641,9 @@ func newE1(c E1Case, handlers ...netty.Handler) *e1Run {
 				n, err := rd.Read(buf)
 				r.inbound += n
 				if err != nil {
+					if c.WrapRead {
+						panic(fmt.Errorf("verif: decoder: read failed: %w", err))
+					}
 					panic(err)
 				}
 			}
@@ -655,23 +712,26 @@ func (r *e1Run) onStep() {
 		if st.QueueLen > r.maxQ {
 			r.maxQ = st.QueueLen
 		}
-		// accepted-but-unsent bound (C18)
-		okCalls := 0
+		// accepted-but-unsent bound (C18): successful calls whose payload is not yet completely in the bytes the
+		// transport has taken (judged on the bytes, not on how the sender groups them into transport calls;
+		// an empty payload counts as sent)
+		if !r.wantBound {
+			return
+		}
 		r.mu.Lock()
 		calls := append([]*e1Call(nil), r.calls...)
 		r.mu.Unlock()
+		stream, _ := r.tr.Accepted()
+		p, _ := r.parseStream(stream)
+		d := 0
 		for _, c := range calls {
-			if isWriteOp(c.Op.Op) && c.Op.Op != "readfrom" && c.Op.Op != "write" && c.ok() {
-				okCalls++
+			if isWriteOp(c.Op.Op) && c.Op.Op != "readfrom" && c.Op.Op != "write" && c.ok() && len(c.Payload) > 0 {
+				if _, sent := p.endOff[c.ID]; !sent {
+					d++
+				}
 			}
 		}
-		written := 0
-		for _, ev := range r.tr.EventsCopy() {
-			if ev.Kind == "writev" && !ev.Rejected && ev.EndSeq != 0 {
-				written += ev.Segs
-			}
-		}
-		if d := okCalls - written; d > r.bound {
+		if d > r.bound {
 			r.bound = d
 		}
 	}
